@@ -377,6 +377,12 @@ def damping_obligation(r5, name, cond, where):
     va = T.value_atoms(chol)
     r5.require("damp" in va and va <= {"damp"}, f"{name}.linearize damping", "noise Cholesky factor = damp * identity (depends on damp only)",
                f"noise Cholesky factor depends by value on {sorted(va)}: {T.show(chol, 4)}; expected the caller's damp only", where_of(chol, where))
+    from ..hdomain import Hom
+
+    hom = Hom({A("damp"): 1}, default_atom_degree=0)
+    d = hom.deg(chol)
+    r5.require(True if d == 1 else (None if d is None else False), f"{name}.linearize damping is linear", "noise Cholesky factor homogeneous of degree 1 in damp",
+               f"noise Cholesky factor has degree {d} in damp ({[m for _t, m in hom.errors][:1] or hom.unknown[:2]}): {T.show(chol, 4)}", where_of(chol, where))
     r5.require("damp" not in T.value_atoms(mean), f"{name}.linearize offset undamped", "the offset does not depend on damp", f"offset depends on damp: {T.show(mean, 4)}", where)
 
 
